@@ -484,6 +484,80 @@ func streamParse(o *Out, r *rand.Rand, n int, thorough bool) {
 			o.Fail(Failure{Oracle: "string-literal", Key: "literal-raw-string", Input: raw, Detail: fmt.Sprintf("expected %q, got %q", raw, v)})
 		}
 	}
+	// a raw string denotes exactly the bytes between the back quotes - CR LF, a lone CR, a byte order mark included;
+	// and a file that starts with a byte order mark is not silently accepted as if it did not
+	for _, raw := range []string{"a\r\nb", "one\r\ntwo\r\n", "\r", "a\rb", "\xef\xbb\xbfx", "a\n\r\nb", "\r\n", "tab\there", "q\"uote'", "\\n stays two characters"} {
+		stmt, err := parser.ParseSrc("x = `" + raw + "`")
+		o.Sum.Evaluations++
+		o.Sum.Hist["literal:raw-bytes"]++
+		want := "(stmts (lets ((id x)) ((lit (s " + hexOf(raw) + ")))))"
+		if err != nil {
+			o.Fail(Failure{Oracle: "string-literal", Key: "literal-raw-string", Input: fmt.Sprintf("x = `%s`", raw), Detail: err.Error()})
+		} else if got := astser.Prog(stmt); got != want {
+			o.Fail(Failure{Oracle: "string-literal", Key: "literal-raw-string", Input: fmt.Sprintf("x = `%q`", raw), Detail: fmt.Sprintf("expected %s, parser gave %s", want, got)})
+		}
+	}
+	for _, q := range []struct{ src, want string }{
+		{"x = \"a\\r\\nb\"", "(stmts (lets ((id x)) ((lit (s " + hexOf("a\r\nb") + ")))))"},
+		{"x = \"a\r\\nb\"", "(stmts (lets ((id x)) ((lit (s " + hexOf("a\r\nb") + ")))))"},
+		{"x = 1\r\ny = 2", "(stmts (lets ((id x)) ((lit (i 1)))) (lets ((id y)) ((lit (i 2)))))"},
+	} {
+		stmt, err := parser.ParseSrc(q.src)
+		o.Sum.Evaluations++
+		if err != nil {
+			o.Fail(Failure{Oracle: "string-literal", Key: "literal-cr", Input: q.src, Detail: err.Error()})
+		} else if got := astser.Prog(stmt); got != q.want {
+			o.Fail(Failure{Oracle: "string-literal", Key: "literal-cr", Input: fmt.Sprintf("%q", q.src), Detail: fmt.Sprintf("expected %s, parser gave %s", q.want, got)})
+		}
+	}
+	// statements keep their boundaries whatever encloses the block they are written in: a function literal with a body of
+	// several lines reads the same as an argument, a list element, a parenthesised callee, an index - also when a line
+	// starts with `-`, `(`, `[`, `*`, `&`, which could continue the line before
+	funcPart := func(prog string) string {
+		i := strings.Index(prog, "(func ")
+		if i < 0 {
+			return ""
+		}
+		depth := 0
+		for j := i; j < len(prog); j++ {
+			switch prog[j] {
+			case '(':
+				depth++
+			case ')':
+				depth--
+				if depth == 0 {
+					return prog[i : j+1]
+				}
+			}
+		}
+		return ""
+	}
+	firsts := []string{"d = v", "d", "v.m", "v[0]", "f(v)", "d = 1", "return", "x++"}
+	seconds := []string{"-d", "(d)", "[d]", "*p = 1", "&d", "d", "!d", "^d", "<- c", "f(d)", "(-(d))", "+d"}
+	for _, s1 := range firsts {
+		for _, s2 := range seconds {
+			body := "func(a) {\n" + s1 + "\n" + s2 + "\nreturn a\n}"
+			base, berr := parser.ParseSrc("fn = " + body)
+			if berr != nil {
+				continue // not a body of the language
+			}
+			ref := funcPart(astser.Prog(base))
+			for _, w := range []struct{ name, pre, post string }{
+				{"argument", "cb(", ")"}, {"second-argument", "cb(1, ", ", 2)"}, {"list-element", "l = [", "]"}, {"called-in-parens", "(", ")(1)"},
+				{"index", "t[", "(0)]"}, {"map-value", "m = {\"k\": ", "}"}, {"nested-call", "g(h(", "))"}, {"ternary", "y = true ? ", " : nil"}, {"return-value", "return ", ", 1"},
+			} {
+				src := w.pre + body + w.post
+				st, err := parser.ParseSrc(src)
+				o.Sum.Evaluations++
+				o.Sum.Hist["body-in-brackets:"+w.name]++
+				if err != nil {
+					o.Fail(Failure{Oracle: "statement-boundaries", Key: "body-in-brackets:" + w.name, Input: src, Detail: "the function literal parses on its own but not here: " + err.Error()})
+				} else if got := funcPart(astser.Prog(st)); got != ref {
+					o.Fail(Failure{Oracle: "statement-boundaries", Key: "body-in-brackets:" + w.name, Input: src, Detail: fmt.Sprintf("on its own the literal reads %s, here %s", ref, got)})
+				}
+			}
+		}
+	}
 	// a well-formed numeric literal written directly against a binary operator reads as it does with blanks around the
 	// operator: where a literal ends depends on its base only (the hex digit e is no exponent marker)
 	for _, l := range []string{"0xe", "0xfe", "0x1e", "0xE", "0XAE", "0x1F", "0xabcdef", "0b1", "0b10", "7", "10", "1e3", "1E3", "1.5", "1.5e2", "2e-3", "0"} {
